@@ -107,7 +107,7 @@ def shrink_candidates(case):
             out.append(c)
     for key in ('A', 'B'):
         t = case.get(key)
-        if t:
+        if t and case.get('header_' + key.lower()) is None:     # with a header the table stays as wide as the header
             for i, r in enumerate(t):
                 if len(r) > 1:
                     c = copy.deepcopy(case)
@@ -166,6 +166,19 @@ def run_cases(res, prop, cases, impl='py', rnd=None, fields=ALL_FIELDS, max_repo
         print('INFRA: specification layer and operational model differ on %d case(s), e.g. %s' % (len(SPEC_MISMATCHES), SPEC_MISMATCHES[0][:600]))
         raise SystemExit(2)
     return nbad
+
+
+def js_leg(res, prop, cases, rnd=None, max_report=4):
+    """The same cases on the REAL rbql-js engine, restricted to the class of cases whose expressions mean the same in
+    Python and JS (corr_C19.in_class: rectangular None-free tables, field references inside the table, no null operands
+    of + / .length / like / split / <).  The JavaScript twin of a statement is part of the system the property talks about."""
+    import corr_C19
+    import qgen
+    sub = [c for c in cases if corr_C19.in_class(c)]
+    res.count('js_leg_cases', len(sub))
+    if not sub:
+        return 0
+    return run_cases(res, prop, sub, 'js', rnd=rnd, max_report=max_report, valid=corr_C19.in_class)
 
 
 def replay(res, path, fields=ALL_FIELDS):
